@@ -531,3 +531,104 @@ def matrix_products(model: Model, R: RuleResult):
             R.bad(m, m.node, "MatrixLinearOperator.%s must be %s (%s); it is %s" % (
                 name, want.show(), "the product with the conjugate transpose of the matrix" if cj else "the product with the matrix", got.show() if got is not None else None))
     return decided
+
+
+# ------------------------------------------------------------------------------------------------- VW: .view on the caller's operand
+_STRIDE_CHANGING = {"transpose", "permute", "movedim", "moveaxis", "swapaxes", "swapdims", "expand", "expand_as", "narrow", "unbind", "chunk", "split", "diagonal", "t",
+                    "flip_view", "unfold", "as_strided", "select", "index_select_view"}
+_STRIDE_KEEPING = {"squeeze", "unsqueeze", "detach", "conj", "requires_grad_", "to", "type", "double", "float", "view_as"}
+
+
+def _view_hits(fnode: ast.FunctionDef, operand_params: Set[str]) -> List[Tuple[ast.Call, str]]:
+    """calls `X.view(<shape>)` of the function whose receiver is (a view of) a tensor handed in by the caller, or a transposed /
+    permuted / expanded / sliced view of anything, with no `.contiguous()`, copy or arithmetic in between.  `view` never copies: it
+    raises RuntimeError when the requested shape is not expressible on the strides - which is what a non-contiguous operand gives."""
+    from ..flow import function_defs
+    defs = function_defs(fnode)
+
+    def noncontig(e, depth=0, seen=None) -> Optional[str]:
+        """a reason why `e` may be non-contiguous, None when it cannot be shown"""
+        seen = seen if seen is not None else set()
+        if isinstance(e, ast.Name):
+            if e.id in operand_params and not defs.get(e.id):
+                return "`%s` is the caller's tensor (any strides)" % e.id
+            if e.id in seen or depth > 5:
+                return None
+            seen.add(e.id)
+            for d in defs.get(e.id, []):
+                if isinstance(d, ast.AST) and not isinstance(d, (ast.FunctionDef, ast.Lambda)):
+                    r = noncontig(d, depth + 1, seen)
+                    if r:
+                        return r
+            if e.id in operand_params:
+                return None
+            return None
+        if isinstance(e, ast.Attribute) and e.attr in ("T", "mT", "H", "mH", "real", "imag"):
+            return "`%s` is a strided view" % ast.unparse(e)[:40]
+        if isinstance(e, ast.Call) and isinstance(e.func, ast.Attribute):
+            a = e.func.attr
+            if a in _STRIDE_CHANGING:
+                return "`%s` is a strided view" % ast.unparse(e)[:50]
+            if a in _STRIDE_KEEPING or (a == "view" and _is_shape_view(e)):
+                return noncontig(e.func.value, depth, seen)
+            return None
+        if isinstance(e, ast.Call) and ast.unparse(e.func) in ("torch.transpose", "torch.permute", "torch.movedim", "torch.swapaxes", "torch.narrow"):
+            return "`%s` is a strided view" % ast.unparse(e)[:50]
+        if isinstance(e, ast.Subscript):
+            sl = e.slice.elts if isinstance(e.slice, ast.Tuple) else [e.slice]
+            if any(isinstance(x, ast.Slice) and (x.lower is not None or x.upper is not None or x.step is not None) for x in sl[1:]) or \
+                    any(isinstance(x, ast.Slice) and x.step is not None for x in sl[:1]):
+                return "`%s` is a strided view" % ast.unparse(e)[:50]
+            return noncontig(e.value, depth, seen)
+        return None
+    out = []
+    for c in own_nodes(fnode):
+        if isinstance(c, ast.Call) and isinstance(c.func, ast.Attribute) and c.func.attr == "view" and _is_shape_view(c):
+            why = noncontig(c.func.value)
+            if why:
+                out.append((c, why))
+    return out
+
+
+def _is_shape_view(c: ast.Call) -> bool:
+    if c.keywords and any(k.arg == "dtype" for k in c.keywords):
+        return False
+    if len(c.args) == 1 and not isinstance(c.args[0], ast.Starred):
+        t = ast.unparse(c.args[0])
+        if t.startswith("torch.") or "dtype" in t:
+            return False
+    return bool(c.args)
+
+
+def view_of_operand(model: Model, R: RuleResult) -> int:
+    """every product method (_mv, _rmv, _mm, _rmm and their helpers of the same class) of every LinearOperator subclass of the package:
+    the operand is never reshaped with `.view`.  The generic mm / rmm fall-backs (and AdjointLinearOperator) move the column axis of a
+    matrix operand to the front with a transpose and pass that NON-CONTIGUOUS tensor to _mv / _rmv; `reshape` copies when it must,
+    `view` raises - so mm is no longer mv column by column as soon as the operand has batch dimensions."""
+    n = 0
+    prod = ("_mv", "_rmv", "_mm", "_rmm")
+    for c in sorted(model.all_classes(), key=lambda c: c.fq):
+        if not (c.derives_from("LinearOperator") or c.name == "LinearOperator"):
+            continue
+        for mn in prod:
+            fi = c.methods.get(mn)
+            if fi is None:
+                continue
+            n += 1
+            try:
+                node = model.flat_func(fi.module.relpath, fi.qualname).node
+            except Exception:
+                node = fi.node
+            hits = _view_hits(node, set(fi.params()[1:]))
+            if hits:
+                for call, why in hits:
+                    R.bad(fi, enclosing_stmt(call) if getattr(call, "_parent", None) is not None else fi.node, "%s.%s reshapes with `%s`: %s, and view raises on strides it cannot express "
+                          "(the mm / rmm fall-backs hand the transposed operand to this method) - use reshape" % (c.name, mn, ast.unparse(call)[:60], why),
+                          what="%s.%s: %s" % (c.name, mn, ast.unparse(call)[:60]))
+            else:
+                R.ok(fi.fq, "%s.%s never applies .view(<shape>) to (a view of) its operand" % (c.name, mn))
+    ctl = ast.parse("def _mv(self, x):\n    x1 = x.unsqueeze(0)\n    return x1.view(-1, 3)\n").body[0]
+    ctl2 = ast.parse("def _mv(self, x):\n    y = torch.cat([x, x], dim=0)\n    z = x.reshape(-1, 3)\n    return y.view(-1, 3) + x.view(torch.float32).sum()\n").body[0]
+    fired, quiet = bool(_view_hits(ctl, {"x"})), not _view_hits(ctl2, {"x"})
+    R.controls.append(dict(name="view-of-operand", ok=fired and quiet, detail="positive control fired=%s, negative twin quiet=%s" % (fired, quiet)))
+    return n
